@@ -20,12 +20,12 @@ REACH = ["predict_win", "_calculate_team_ratings", "phi_major"]
 
 def floors(tier):
     q = tier == "quick"
-    return {"range+sum": 10000 if q else 200000, "permutation": 10000 if q else 200000,
-            "monotone": 10000 if q else 200000, "identical": 1500 if q else 30000, "two-identical-half": 300 if q else 6000}
+    return {"range+sum": 10000 if q else 1600000, "permutation": 10000 if q else 1600000,
+            "monotone": 10000 if q else 1600000, "identical": 1500 if q else 240000, "two-identical-half": 300 if q else 48000}
 
 
 def generate(ctx):
-    n = ctx.budget(16000, 300000)
+    n = ctx.budget(16000, 2400000)
     for _ in range(n):
         case, meta = gen_pred_case(ctx.rng)
         k = len(case["teams"])
